@@ -350,6 +350,7 @@ def run(ctx):
     r4.check(bool(kw) and kw == kr, CV + ' :: version key expression',
              'version keys are computed differently by the writer %s and '
              'the reader %s' % (sorted(kw), sorted(kr)), ctx.loc(r))
+    version_paths(ctx, r4)
     for f in (w, r):
         guards = [norm(n.test) for n in own_nodes(f.node)
                   if isinstance(n, ast.If) and 'hash_version_keys' in
@@ -574,3 +575,65 @@ def config_default(prog, group, opt):
                     return prog.eval_const('mistral.config', k.value)
             return None
     raise NotConst('option %s.%s not found' % (group, opt))
+
+
+def version_paths(ctx, rule):
+    """Version keys are full dotted paths: both the writer and the reader
+    recurse into nested dictionaries passing the prefix extended by the
+    current key, and look versions up under that extended key."""
+    prog = ctx.prog
+    for q in (CV + '._get_published_keys_recursively', CV + '._merge_ctx'):
+        f = prog.func(q)
+        if 'prefix' not in f.params:
+            raise AnalysisError('%s lost its prefix parameter' % q)
+        pidx = f.params.index('prefix')
+        loops = [x for x in own_nodes(f.node) if isinstance(x, ast.For)]
+        if not loops:
+            raise AnalysisError('%s lost its key loop' % q)
+        kv = {y.id for y in ast.walk(loops[0].target)
+              if isinstance(y, ast.Name)}
+
+        def names(e):
+            return {y.id for y in ast.walk(e) if isinstance(y, ast.Name)}
+
+        def full_path(e, depth=0):
+            """e depends on the loop key and on `prefix` (through local
+            definitions)."""
+            nm = names(e)
+            if 'prefix' in nm and nm & kv:
+                return True
+            if depth > 3:
+                return False
+            for v in nm:
+                defs = [x for x in own_nodes(f.node)
+                        if isinstance(x, ast.Assign) and
+                        any(dotted(t) == v for t in x.targets)]
+                if defs and all(full_path(d.value, depth + 1) or
+                                v in names(d.value) for d in defs) and \
+                        any(full_path(d.value, depth + 1) for d in defs):
+                    return True
+            return False
+        rec = [x for x in own_nodes(f.node) if isinstance(x, ast.Call) and
+               U.call_name(x) == f.name]
+        if not rec:
+            raise AnalysisError('%s no longer recurses' % q)
+        for c in rec:
+            a = U.kwarg(c, 'prefix')
+            if a is None and len(c.args) > pidx:
+                a = c.args[pidx]
+            rule.check(a is not None and full_path(a),
+                       ctx.construct(f, extra='recursion extends the prefix'),
+                       'the recursion into a nested dictionary does not pass '
+                       'the prefix extended by the current key: nested '
+                       'leaves get version keys without their parent path',
+                       ctx.loc(f, c))
+        for c in [x for x in own_nodes(f.node) if isinstance(x, ast.Call) and
+                  U.call_name(x) in ('_get_version', 'append')]:
+            if U.call_name(c) == 'append' and \
+                    dotted(c.func.value) != f.params[0]:
+                continue
+            a = c.args[0] if c.args else None
+            rule.check(a is not None and full_path(a),
+                       ctx.construct(f, c),
+                       'a version key is not the full path (prefix + key)',
+                       ctx.loc(f, c))
